@@ -248,6 +248,12 @@ class _AnnotationStringParser(ast.NodeTransformer):
         elif isinstance(value, ast.Attribute) and value.attr == 'Literal':
             # typing.Literal[...] expression; don't unstring the arguments.
             slice = node.slice
+        elif ((isinstance(value, ast.Name) and value.id == 'Annotated') or
+              (isinstance(value, ast.Attribute) and value.attr == 'Annotated')) and \
+                isinstance(node.slice, ast.Tuple) and node.slice.elts:
+            # Annotated[T, x, ...] expression; T is a type, the other arguments are metadata, not annotations.
+            elts = [self.visit(node.slice.elts[0]), *node.slice.elts[1:]]
+            slice = ast.copy_location(ast.Tuple(elts, node.slice.ctx), node.slice)
         else:
             # Other subscript; unstring the slice.
             slice = self.visit(node.slice)
